@@ -67,6 +67,10 @@ struct Block<T> {
 
     // The "next" block to iterate, aka the block that came before this one.
     next: Atomic<Block<T>>,
+
+    // Set once the block has been detached from its bucket: zero while the block accepts writes,
+    // otherwise the number of slots that had been claimed when it was sealed, plus one.
+    sealed: AtomicUsize,
 }
 
 impl<T> Block<T> {
@@ -104,9 +108,22 @@ impl<T> Block<T> {
             return true;
         }
 
+        // Once sealed, only the slots claimed before the seal can still be written.
+        let sealed = self.sealed.load(Ordering::Acquire);
+        if sealed != 0 {
+            return sealed - 1 == len;
+        }
+
         // We have to clamp self.write since multiple threads might race on filling the last block,
         // so the value could actually exceed BLOCK_SIZE.
         min(self.write.load(Ordering::Acquire), BLOCK_SIZE) == len
+    }
+
+    // Seals this block so that no further writes can land in it: any writer that has not claimed a
+    // slot yet will be told the block is full, and will retry against the bucket's current tail.
+    fn seal(&self) {
+        let claimed = min(self.write.swap(BLOCK_SIZE, Ordering::AcqRel), BLOCK_SIZE);
+        self.sealed.store(claimed + 1, Ordering::Release);
     }
 
     /// Gets a slice of the data written to this block.
@@ -396,6 +413,10 @@ impl<T> AtomicBucket<T> {
                 )
                 .is_ok()
         {
+            // The chain is detached, but writers that loaded the old tail may still be about to
+            // claim a slot in its first block: seal it so they go to the new tail instead.
+            unsafe { block_ptr.deref() }.seal();
+
             let backoff = Backoff::new();
             let mut freeable_blocks = Vec::new();
 
